@@ -1140,7 +1140,8 @@ class Mps(MatrixProduct):
             self.evolve_config.tdvp_cmf_midpoint = False
             self.evolve_config.tdvp_cmf_c_trapz = False
             self.evolve_config.adaptive = False
-            environ_mps = self.evolve(mpo, orig_evolve_dt / 2)
+            # the trapz scheme takes its centre tensor from this state: do not rescale it
+            environ_mps = self.evolve(mpo, orig_evolve_dt / 2, normalize=imag_time)
             self.evolve_config = orig_config
         else:
             # mps at t=0 as environment
